@@ -812,6 +812,80 @@ example :
   · intro t ht; simp at ht; subst ht; exact ⟨rfl, rfl⟩
   · intro t ht; simp at ht; rcases ht with rfl | rfl <;> exact ⟨rfl, rfl, rfl⟩
 
+/-! ### registration: each API dispatches on its own table -/
+
+theorem build_handlers_aux {H : Type} (name : String) (regs : List (Reg H)) (t : Table H) :
+    (regs.foldl (Table.add false) t).handlers name =
+      ((regs.reverse.findSome? (Reg.wsFor name)) <|> t.handlers name) := by
+  induction regs generalizing t with
+  | nil => simp
+  | cons r rs ih =>
+    rw [List.foldl_cons, ih, List.reverse_cons, List.findSome?_append]
+    cases rs.reverse.findSome? (Reg.wsFor name) with
+    | some h => simp
+    | none =>
+      cases r with
+      | ws n h =>
+        by_cases hn : name = n
+        · simp [Table.add, Reg.wsFor, hn]
+        · simp [Table.add, Reg.wsFor, hn]
+      | rest n h => simp [Table.add, Reg.wsFor]
+
+theorem build_routes_aux {H : Type} (b : Bool) (name : String) (regs : List (Reg H)) (t : Table H) :
+    (regs.foldl (Table.add b) t).routes name =
+      ((regs.reverse.findSome? (Reg.restFor name)) <|> t.routes name) := by
+  induction regs generalizing t with
+  | nil => simp
+  | cons r rs ih =>
+    rw [List.foldl_cons, ih, List.reverse_cons, List.findSome?_append]
+    cases rs.reverse.findSome? (Reg.restFor name) with
+    | some h => simp
+    | none =>
+      cases r with
+      | ws n h => simp [Table.add, Reg.restFor]
+      | rest n h =>
+        by_cases hn : name = n
+        · simp [Table.add, Reg.restFor, hn]
+        · simp [Table.add, Reg.restFor, hn]
+
+/-- **each API answers with the function registered for that API**: after any sequence of
+registrations, the handler a websocket path dispatches to is the one of the *last `RegisterHandler`*
+for that message name and the function behind a REST resource is the one of the last
+`RegisterRESTHandler` for it — a registration for one API never changes, adds or removes anything
+on the other, whatever the order, also when one message type is registered for both with different
+functions. -/
+theorem c14_registration_apis_separate {H : Type} (regs : List (Reg H)) (name : String) :
+    (Table.build false regs).handlers name = regs.reverse.findSome? (Reg.wsFor name) ∧
+    (Table.build false regs).routes name = regs.reverse.findSome? (Reg.restFor name) := by
+  constructor
+  · simp [Table.build, build_handlers_aux, Table.empty]
+  · simp [Table.build, build_routes_aux, Table.empty]
+
+/-- corollaries: a message registered for REST only is unknown to the websocket API, and the other
+way round -/
+theorem c14_rest_only_is_unregistered_on_ws {H : Type} (regs : List (Reg H)) (name : String)
+    (h : ∀ r ∈ regs, Reg.wsFor name r = none) : (Table.build false regs).handlers name = none := by
+  rw [(c14_registration_apis_separate regs name).1]
+  simp only [List.findSome?_eq_none_iff, List.mem_reverse]
+  exact h
+
+/-- a handler table shared by both registrations: the REST function answers the websocket requests
+of a type registered for both APIs, and a REST-only type becomes a websocket path -/
+theorem c14_shared_table_overwrites :
+    let regs : List (Reg Nat) := [.ws "M" 1, .rest "M" 2, .rest "R" 3]
+    (Table.build true regs).handlers "M" = some 2 ∧ (Table.build true regs).handlers "R" = some 3 ∧
+    (Table.build false regs).handlers "M" = some 1 ∧ (Table.build false regs).handlers "R" = none ∧
+    (Table.build false regs).routes "M" = some 2 := by decide
+
+/-- the concrete service: the literal tables the driver uses are the ones the modelled
+registration produces from `concreteRegs` (websocket paths, REST resources and their tags) -/
+theorem c14_concrete_tables :
+    (["C14Echo", "C14Swap", "C14Key", "C14Both", "C14Post", "C14Put", "C14Int", "C14Bytes", "C14Empty", "Nope"].map wsTag
+      = [some [47, 69, 99, 104, 111], some [47, 83, 119, 97, 112], some [47, 75, 101, 121],
+         some [47, 66, 111, 116, 104, 87, 115], none, none, none, none, none, none]) ∧
+    (∀ res ∈ ["C14Post", "C14Put", "C14Int", "C14Bytes", "C14Empty", "C14Both", "C14Echo", "C14Swap", "Nope"],
+      concreteTable.routes res = (Drv.resourceId res).map restTag) := by decide
+
 /-! ### the code regions the model stands for
 Regenerated from /repo's source on every run (`harness/cmd/astfacts` → `OnetVerif/Shapes.lean`): the
 calls that matter for synchronisation and data flow, the lock regions and (for decision logic) the
